@@ -119,7 +119,7 @@ Definition cfg_no_search : vcfg :=
      f_gate_on_creddef := true; f_require_nrp := true; f_w3c_strict_subject := true;
      f_common_link := true; f_bind_schema := true; f_w3c_norm_keys := true; f_marker := true;
      f_no_index_panic := true; f_no_unwrap_panic := true; f_pred_range := true;
-     f_w3c_pred_cv := true; f_group_unrevealed := true; f_group_keys := true; f_w3c_nrp_search := false |}.
+     f_w3c_pred_cv := true; f_group_unrevealed := true; f_group_keys := true; f_w3c_nrp_search := false; f_restr_revealed_first := true |}.
 Definition s_srcr := {| src_key := 1; src_attrs := ["name"; "age"]; src_values := [("name", encode "Alex"); ("age", "28")];
                         src_cred_link := 7; src_used_link := 0; src_pos := 0; src_altered := false |}.
 Definition s_cr := {| hc_schema := "schema:one"; hc_creddef := "creddef:rev"; hc_revreg := Some "reg:1"; hc_issuer := "issuer:one";
